@@ -48,7 +48,7 @@ def run(tier: str) -> Check:
 
     mods = modcheck.module_skeletons(repo, ops.modifier_masks(repo))
     for label, sk, ents in mods[:2]:
-        modcheck.check_module(check, label, sk, ents)
+        modcheck.check_module(check, label, sk, ents, repo)
     check.floor("mutation_sites", 150)
     check.floor("long_lived_write_candidates", 6)
     check.floor("module_level_mutables", 8)
